@@ -34,24 +34,24 @@
 (***************************************************************************)
 EXTENDS DynScan, HashWalk, FiniteSets, TLC, Json, CSV, IOUtils
 INSTANCE RegistryData
-\* the registry tables the verdicts consult are bound once, into a state variable (`reg`): TLC re-evaluates the
-\* vendored registry record at every use of a definition that mentions it
-RegTables == [by |-> [k \in DtKeys |-> RegByCode[k]], known |-> DOMAIN Reg \cup AllSolarisNames]
+\* the registry tables the verdicts consult, bound once
+ByCode == TLCEval([k \in DtKeys |-> RegByCode[k]])
+KnownNames == TLCEval(DOMAIN Reg \cup AllSolarisNames)
 
 Log == ndJsonDeserialize(IOEnv.TRACE)
 
-VARIABLES reg, l, voc, fl, scans, oks, oka, okc, bad, ill, unk, undet
-vars == <<reg, l, voc, fl, scans, oks, oka, okc, bad, ill, unk, undet>>
+VARIABLES l, voc, fl, scans, oks, oka, okc, bad, ill, unk, undet
+vars == <<l, voc, fl, scans, oks, oka, okc, bad, ill, unk, undet>>
 
-Init == reg = RegTables /\ l = 1 /\ voc = {} /\ fl = 0 /\ scans = <<>> /\ oks = 0 /\ oka = 0 /\ okc = 0 /\ bad = {} /\ ill = {} /\ unk = 0 /\ undet = {}
+Init == l = 1 /\ voc = {} /\ fl = 0 /\ scans = <<>> /\ oks = 0 /\ oka = 0 /\ okc = 0 /\ bad = {} /\ ill = {} /\ unk = 0 /\ undet = {}
 
 Elems(s) == {s[i] : i \in 1..Len(s)}
 
 \* verdict on one reported tag against the decoded entry e = <<tag digits, value digits>>: "ok", "unk", or what is wrong
 TagVerdict(F, e, r) ==
-  LET names == DtNamesOf(reg.by, F.machine, F.osabi, e[1]) IN
+  LET names == DtNamesOf(ByCode, F.machine, F.osabi, e[1]) IN
   IF r.v # e[2] THEN "d_val"
-  ELSE IF r.nm # "" THEN (IF r.nm \in names THEN "ok" ELSE IF r.nm \in reg.known THEN "d_tag.name" ELSE "unk")
+  ELSE IF r.nm # "" THEN (IF r.nm \in names THEN "ok" ELSE IF r.nm \in KnownNames THEN "d_tag.name" ELSE "unk")
   ELSE IF names \cap voc # {} THEN "d_tag.unnamed"
   ELSE IF r.c = e[1] THEN "ok" ELSE "d_tag.code"
 
@@ -63,9 +63,9 @@ ScanStepT(e) ==
      THEN ill' = ill \cup {<<e.f, e.view>>} /\ UNCHANGED <<oks, bad, unk>>
      ELSE IF Len(e.tags) # Len(st.out)
      THEN bad' = bad \cup {<<e.f, l, "tags.count", Len(st.out)>>} /\ UNCHANGED <<oks, ill, unk>>
-     ELSE LET vs == [i \in 1..Len(st.out) |-> TagVerdict(F, st.out[i], e.tags[i])]
-              wrong == {i \in 1..Len(vs) : vs[i] \notin {"ok", "unk"}} IN
-          /\ unk' = unk + Cardinality({i \in 1..Len(vs) : vs[i] = "unk"})
+     ELSE LET vs == TLCEval([i \in 1..st.n |-> TagVerdict(F, st.out[i], e.tags[i])])
+              wrong == {i \in 1..st.n : vs[i] \notin {"ok", "unk"}} IN
+          /\ unk' = unk + Cardinality({i \in 1..st.n : vs[i] = "unk"})
           /\ UNCHANGED ill
           /\ IF wrong = {} THEN oks' = oks + 1 /\ UNCHANGED bad
              ELSE bad' = bad \cup {<<e.f, l, vs[Min(wrong)], Min(wrong) - 1>>} /\ UNCHANGED oks
@@ -97,7 +97,7 @@ CntStep(e) ==
 
 Step ==
   /\ l <= Len(Log)
-  /\ l' = l + 1 /\ UNCHANGED reg
+  /\ l' = l + 1
   /\ LET e == Log[l] IN
      CASE e.k = "voc" -> voc' = Elems(e.voc) /\ UNCHANGED <<fl, scans, oks, oka, okc, bad, ill, unk, undet>>
        [] e.k = "file" -> fl' = l /\ scans' = <<>> /\ UNCHANGED <<voc, oks, oka, okc, bad, ill, unk, undet>>
